@@ -109,6 +109,13 @@ Fixpoint insert_str (x : string) (l : list string) : list string :=
   end.
 Definition sort_strs (l : list string) : list string := fold_right insert_str [] l.
 
+Fixpoint strs_eqb_ops (a b : list string) : bool :=
+  match a, b with
+  | [], [] => true
+  | x :: a', y :: b' => String.eqb x y && strs_eqb_ops a' b'
+  | _, _ => false
+  end.
+
 (* fSys.Glob on the disk file system (filepath.Glob): files AND directories matching, sorted
    (hidden files are outside the model's domain) *)
 Definition fs_glob (e : env) (pat : string) : list string :=
@@ -416,6 +423,66 @@ Definition remove_generator_args (args : list string) (ns : string) (l : list ge
   | _ => Err
   end.
 
+(* ---------- set configmap / set secret ----------
+   util.UpdateLiteralSources rebuilds the literal list by ranging over a Go map: the ORDER of the
+   result is not determined by the code.  [ord] is the iteration-order oracle (DESIGN §3 Perm): the
+   key order the implementation produced; it must be a permutation of the keys. *)
+Definition literal_kv (s : string) : res (string * string) :=
+  match count_char "="%char s with
+  | S O => match split_first "="%char s with Some kv => Ok kv | None => Err end
+  | _ => Err
+  end.
+
+Fixpoint literal_sources (l : list string) (acc : smap) : res smap :=
+  match l with
+  | [] => Ok acc
+  | s :: t => do kv <- literal_kv s; literal_sources t (assoc_set (fst kv) (snd kv) acc)
+  end.
+
+Fixpoint update_sources (l : list string) (acc : smap) : res smap :=
+  match l with
+  | [] => Ok acc
+  | s :: t => do kv <- literal_kv s;
+              if assoc_mem (fst kv) acc then update_sources t (assoc_set (fst kv) (snd kv) acc) else Err
+  end.
+
+(* the updated key -> value map *)
+Definition updated_sources (cur flagl : list string) : res smap :=
+  do m0 <- literal_sources cur [];
+  update_sources flagl m0.
+
+Definition render_sources (m : smap) (ord : list string) : list string :=
+  map (fun key => (key ++ "=" ++ match assoc_get key m with Some v => v | None => "" end)%string) ord.
+
+(* every failure of the command is independent of the iteration order, so the command is first run with the
+   keys in sorted order; only a successful command consults [ord] (which the harness can observe only then) *)
+Definition set_generator_args (e : env) (args flagl : list string) (ns newns : string) (ord : list string)
+           (global : option genopts) (l : list genargs) : res (list genargs) :=
+  match args with
+  | [name] =>
+      if nilb flagl && String.eqb newns "" then Err
+      else
+        match find_index (fun a => String.eqb name (ga_name a) && ns_equal ns (ga_namespace a)) l with
+        | None => Err
+        | Some i =>
+            match nth_error l i with
+            | Some a =>
+                do m <- (if nilb flagl then Ok [] else updated_sources (ga_literals a) flagl);
+                let mk := fun lits =>
+                  mkGa (if String.eqb newns "" then ga_namespace a else newns) (ga_name a) (ga_behavior a)
+                       lits (ga_files a) (ga_envs a) (ga_env a)
+                       (merge_global_options (ga_options a) global) (ga_type a) in
+                let sorted_lits := if nilb flagl then ga_literals a else render_sources m (map fst m) in
+                if negb (generator_valid e (mk sorted_lits)) then Err
+                else if nilb flagl then Ok (replace_nth i (mk (ga_literals a)) l)
+                else if negb (strs_eqb_ops (sort_strs ord) (map fst m)) then Diverge   (* not a permutation: bad oracle *)
+                else Ok (replace_nth i (mk (render_sources m ord)) l)
+            | None => Err
+            end
+        end
+  | _ => Err
+  end.
+
 (* ---------- patches ---------- *)
 Definition empty_selector := mkSel "" "" "" "" "" "" "".
 
@@ -550,7 +617,9 @@ Inductive op :=
 | SetReplicas (args : list string)
 | SetNamespace (args : list string)
 | SetNamePrefix (args : list string)
-| SetNameSuffix (args : list string).
+| SetNameSuffix (args : list string)
+| SetConfigMap (args literals : list string) (ns newns : string) (ord : list string)
+| SetSecret (args literals : list string) (ns newns : string) (ord : list string).
 
 Definition wrote (k : kust) : res (option kust) := Ok (Some k).
 Definition nothing : res (option kust) := Ok None.
@@ -762,6 +831,24 @@ Definition apply_op (e : env) (rk : res kust) (o : op) : res (option kust) :=
       | [a] => do k <- rk; wrote (set_nameSuffix a k)
       | _ => Err
       end
+  | SetConfigMap args literals ns newns ord =>
+      match args with
+      | [_] =>
+          if nilb literals && String.eqb newns "" then Err
+          else do k <- rk;
+               do l <- set_generator_args e args literals ns newns ord (k_generatorOptions k) (k_configMapGenerator k);
+               wrote (set_configMapGenerator l k)
+      | _ => Err
+      end
+  | SetSecret args literals ns newns ord =>
+      match args with
+      | [_] =>
+          if nilb literals && String.eqb newns "" then Err
+          else do k <- rk;
+               do l <- set_generator_args e args literals ns newns ord (k_generatorOptions k) (k_secretGenerator k);
+               wrote (set_secretGenerator l k)
+      | _ => Err
+      end
   end.
 
 (* the fields a sub-command may change *)
@@ -775,8 +862,8 @@ Definition addressed (o : op) : list string :=
   | RemoveLabel _ _ | SetLabel _ => ["CommonLabels"]
   | AddAnnotation _ _ | RemoveAnnotation _ _ | SetAnnotation _ => ["CommonAnnotations"]
   | AddBuildMetadata _ | RemoveBuildMetadata _ | SetBuildMetadata _ => ["BuildMetadata"]
-  | AddConfigMap _ | RemoveConfigMap _ _ => ["ConfigMapGenerator"]
-  | AddSecret _ | RemoveSecret _ _ => ["SecretGenerator"]
+  | AddConfigMap _ | RemoveConfigMap _ _ | SetConfigMap _ _ _ _ _ => ["ConfigMapGenerator"]
+  | AddSecret _ | RemoveSecret _ _ | SetSecret _ _ _ _ _ => ["SecretGenerator"]
   | AddPatch _ _ _ | RemovePatch _ _ _ => ["Patches"]
   | SetImage _ => ["Images"]
   | SetReplicas _ => ["Replicas"]
